@@ -29,7 +29,7 @@ PATTERNS = {
 ALLNUCS = ["U235", "U238", "ZR", "FE", "CR", "NA"]
 
 
-def fill(ctx, b, pattern, tag="", geom=False):
+def fill(ctx, b, pattern, tag="", geom=False, nlo=0.0):
     """(pattern: a key of PATTERNS or a {component: [nuclides]} dict.)  Inject symbolic number densities and either symbolic component volumes (geom=False) or a symbolic
     block height with the real component areas (geom=True: volume = area x height computed by armi).
     Returns ({comp: vol}, {(comp, nuc): dens})."""
@@ -48,7 +48,7 @@ def fill(ctx, b, pattern, tag="", geom=False):
             vols[c.name] = v
         nd = {}
         for nuc in held.get(c.name, []):
-            n = ctx.real("n_%s_%s%s" % (c.name, nuc, tag), 0.0, 10.0)
+            n = ctx.real("n_%s_%s%s" % (c.name, nuc, tag), nlo, 10.0)
             nd[nuc] = n
             dens[(c.name, nuc)] = n
         c.p.numberDensities = nd
@@ -539,3 +539,368 @@ def assembly_setters_introduce_a_new_nuclide(ctx, second, via):
         ctx.check_close("... and leaves U235 alone", a.getNumberDensity("U235"), oldU, scale=oldU + 1e-30)
     else:
         ctx.check_close("... and zeroes unlisted U235", a.getNumberDensity("U235"), 0.0, scale=1.0)
+
+
+# ---------------------------------------------------------------------------------------------------------
+# selections by KIND of nuclide (heavy metal, fission products, fissile) and selections that select nothing
+
+from armi.nucDirectory import nuclideBases  # noqa: E402
+
+
+def weight(nuc):
+    """atomic weight (g/mol) the library gives the nuclide"""
+    return nuclideBases.byName[nuc].weight
+
+
+def kind_of(nuc):
+    """class of the nuclide in armi's directory: NuclideBase (a real isotope), NaturalNuclideBase (an element in
+    natural composition), LumpNuclideBase (lumped fission products ...), DummyNuclideBase (burn-chain dump nuclides)"""
+    return type(nuclideBases.byName[nuc]).__name__
+
+
+def is_heavy_metal(nuc):
+    """actinides: real isotopes / natural elements from thorium (Z = 90) on"""
+    return kind_of(nuc) in ("NuclideBase", "NaturalNuclideBase") and nuclideBases.byName[nuc].z >= 90
+
+
+def is_lumped_fission_product(nuc):
+    return kind_of(nuc) == "LumpNuclideBase" and nuc.startswith("LFP")
+
+
+FISSILE = ("U233", "U235", "PU239", "PU241", "AM242M", "CM244")     # the list armi documents as `fissile`
+
+SELECTION_PATTERNS = {
+    # fuel block: heavy metal, fissile and fission products in the fuel only
+    "fuel": {"fuel": ["U235", "U238", "PU239", "ZR", "LFP35", "LFP39"], "clad": ["FE", "CR"], "duct": ["FE"],
+             "intercoolant": ["NA"]},
+    # reflector / shield block: none of them anywhere
+    "reflector": {"fuel": ["ZR"], "clad": ["FE"], "duct": ["FE", "CR"], "intercoolant": ["NA"]},
+    # spread over several components, next to dump nuclides and an empty component
+    "spread": {"fuel": ["U235", "LFP35"], "clad": [], "duct": ["U238", "DUMP1", "FE"], "intercoolant": ["LFP38", "NA"]},
+}
+
+
+def _selection_obligations(ctx, obj, what, vols, mine, children=None, canary=False):
+    """obligations on one object: `mine` = {(component, nuclide): density} of what it holds"""
+
+    def grams(pred):
+        return sum(vols[c] * n * weight(k) / K for (c, k), n in mine.items() if pred(k))
+
+    total = grams(lambda k: True)
+    here = sorted({k for (_, k) in mine})
+    absent = [k for k in ("AM241", "CM244", "LFP41", "DUMP2") if k not in here]
+    cases = [
+        ("heavy-metal mass", lambda o: o.getHMMass(), is_heavy_metal),
+        ("fission-product mass", lambda o: o.getFPMass(), is_lumped_fission_product),
+        ("fissile mass", lambda o: o.getFissileMass(), lambda k: k in FISSILE),
+        ("mass of an EMPTY selection", lambda o: o.getMass([]), lambda k: False),
+        ("mass of a list of nuclides none of which is here", lambda o: o.getMass(list(absent)), lambda k: False),
+    ]
+    if here:
+        mixed = [here[0]] + absent[:1]
+        cases.append(("mass of a list with one nuclide that is here and one that is not",
+                      lambda o: o.getMass(list(mixed)), lambda k: k == here[0]))
+    for label, call, pred in cases:
+        got, want = call(obj), grams(pred)
+        n_sel = len([k for k in here if pred(k)])
+        if canary and label == "heavy-metal mass":
+            got = got + ITE(vols["duct"] > 9999.0, 1.0, 0.0)
+        ctx.check_close("%s: %s = sum of the masses of the selected nuclides it holds (%d of %d)" % (
+            what, label, n_sel, len(here)), got, want, scale=total + 1.0)
+        if children is not None:
+            ctx.check_close("%s: %s = sum over its children" % (what, label), got, sum(call(c) for c in children),
+                            scale=total + 1.0)
+
+
+@harness("C02", bounds="one real HexBlock, 4 components, volumes [1e-3,1e4] and densities [0,10] symbolic; fuel block "
+                       "(heavy metal, fissile nuclides and lumped fission products in the fuel only), reflector block "
+                       "(none of them anywhere), spread (several holders, a dump nuclide, an empty component); "
+                       "selections by kind through getHMMass / getFPMass / getFissileMass, the empty list, lists of "
+                       "absent nuclides, mixed lists; at block level and at every component", stubs=STUBS,
+         instances={"quick": [dict(pattern="fuel"), dict(pattern="reflector")],
+                    "thorough": [dict(pattern=p) for p in SELECTION_PATTERNS]})
+def selection_by_kind_and_empty_selection(ctx, pattern):
+    b = _build.mk_block()
+    vols, dens = fill(ctx, b, SELECTION_PATTERNS[pattern])
+    _selection_obligations(ctx, b, "block", vols, dens, children=list(b), canary=ctx.canary)
+    for c in b:
+        mine = {(cn, k): n for (cn, k), n in dens.items() if cn == c.name}
+        _selection_obligations(ctx, c, c.name, vols, mine)
+
+
+@harness("C02", bounds="assembly of a fuel block and a reflector block (no heavy metal, no fission products), real "
+                       "component areas, block heights in [1,400] and all densities symbolic; selections by kind and "
+                       "the empty selection at assembly level", stubs=STUBS, qtimeout_ms=30000)
+def assembly_selection_masses_add_up_over_blocks(ctx):
+    import armi.reactor.assemblies as asmmod
+    shims.patch(asmmod, np=shims.np_shim)
+    a = _build.mk_assembly(2)
+    vols, dens = {}, {}
+    for bi, (b, p) in enumerate(zip(a, ("fuel", "reflector"))):
+        v, d = fill(ctx, b, SELECTION_PATTERNS[p], tag="_%d" % bi, geom=True)
+        vols.update({"%d/%s" % (bi, c): x for c, x in v.items()})
+        dens.update({("%d/%s" % (bi, c), k): n for (c, k), n in d.items()})
+    vols["duct"] = vols["0/duct"]
+    a.calculateZCoords()
+    _selection_obligations(ctx, a, "assembly", vols, dens, children=list(a), canary=False)
+    got = a.getHMMass()
+    if ctx.canary:
+        got = got * ITE(dens[("0/fuel", "U238")] > 9.99, 1.01, 1)
+    want = sum(vols[c] * n * weight(k) / K for (c, k), n in dens.items() if is_heavy_metal(k))
+    ctx.check_close("assembly heavy-metal mass = that of the one block that holds heavy metal", got, a[0].getHMMass(),
+                    scale=want + 1.0)
+
+
+# ---------------------------------------------------------------------------------------------------------
+# compositions holding every KIND of nuclide armi's directory knows
+
+
+def nuclides_of_every_kind(per_kind):
+    """Nuclide names chosen by KIND: for every class of armi's nuclide directory (real isotopes, natural elements,
+    lumped nuclides, dummy/dump nuclides, and whatever class a later version adds), `per_kind` names spread evenly
+    over the alphabetical list of the class (all of them when the class has no more than that).  A name that is also
+    an element symbol (natural ZR) is not put next to other nuclides of that element (ZR99): what such a name
+    selects is then ambiguous (see the element-selection harness)."""
+    from armi.nucDirectory import elements
+    groups = {}
+    for nb in nuclideBases.instances:
+        groups.setdefault(type(nb).__name__, []).append(nb.name)
+    out = []
+
+    def clash(x):
+        ex = nuclideBases.byName[x].element
+        return any(nuclideBases.byName[y].element is ex and (x in elements.bySymbol or y in elements.bySymbol)
+                   for y in out)
+
+    for kind in sorted(groups):
+        names = sorted(groups[kind])
+        if len(names) <= per_kind:
+            wanted = list(range(len(names)))
+        else:
+            wanted = [(i * (len(names) - 1)) // max(per_kind - 1, 1) for i in range(per_kind)]
+        for i in wanted:
+            nearby = sorted(range(len(names)), key=lambda j: (abs(j - i), j))
+            pick = next((names[j] for j in nearby if names[j] not in out and not clash(names[j])), None)
+            if pick is not None:
+                out.append(pick)
+    return out
+
+
+def spread_over_components(nucs, names=("fuel", "clad", "duct", "intercoolant")):
+    """round robin; every second nuclide additionally in the fuel (several holders of one nuclide)"""
+    held = {n: [] for n in names}
+    for i, nuc in enumerate(nucs):
+        held[names[i % len(names)]].append(nuc)
+        if i % 2 and nuc not in held["fuel"]:
+            held["fuel"].append(nuc)
+    return held
+
+
+@harness("C02", bounds="one real HexBlock, 4 components, volumes [1e-3,1e4] and densities [0,10] symbolic; composition "
+                       "(densities in [1e-6,10]) chosen by KIND from armi's nuclide directory: per_kind (quick 2, thorough 4) nuclides of every "
+                       "class present in nuclideBases.instances (real isotopes, natural elements, lumped fission "
+                       "products / lumps, dummy dump nuclides), spread over the components", stubs=STUBS,
+         instances={"quick": [dict(per_kind=2)], "thorough": [dict(per_kind=2), dict(per_kind=4)]})
+def every_kind_of_nuclide_counts_in_the_mass(ctx, per_kind):
+    nucs = nuclides_of_every_kind(per_kind)
+    kinds = sorted({kind_of(n) for n in nucs})
+    ctx.note("nuclide kinds in the directory: %s; chosen: %s" % (", ".join(kinds), ", ".join(nucs)))
+    b = _build.mk_block()
+    vols, dens = fill(ctx, b, spread_over_components(nucs), nlo=1e-6)
+    for obj in [b] + list(b):
+        what = "block" if obj is b else obj.name
+        mine = {(c, k): n for (c, k), n in dens.items() if obj is b or c == obj.name}
+        V = sum(vols.values()) if obj is b else vols[obj.name]
+        grams = {}
+        for (c, k), n in mine.items():
+            grams[k] = grams.get(k, 0) + vols[c] * n * weight(k) / K
+        total = sum(grams.values())
+        tot = obj.getMass()
+        got = tot
+        if ctx.canary and obj is b:
+            k0 = [k for k in nucs if kind_of(k) == kinds[0]][0]
+            got = got - ITE(vols["clad"] > 9999.0, 0.01 * total + grams[k0], 0)
+        ctx.check_close("%s: total mass = sum of N V A / k over EVERY nuclide it holds, of whatever kind" % what,
+                        got, total, scale=total + 1e-30)
+        rho = obj.density() if obj is b else compmod.Composite.density(obj)
+        ctx.check_close("%s: mass = density x volume" % what, tot, rho * obj.getVolume(), scale=total + 1e-30)
+        masses = obj.getMasses()
+        ctx.check("%s: getMasses lists every nuclide held" % what, sorted(masses) == sorted(grams))
+        ctx.check_close("%s: mass = sum of getMasses()" % what, tot, sum(masses.values()), scale=total + 1e-30)
+        for k in sorted(grams):
+            m = obj.getMass(k)
+            ctx.check_close("%s: mass(%s, a %s) = N V A / k" % (what, k, kind_of(k)), m, grams[k],
+                            scale=grams[k] + 1e-30)
+            ctx.check_close("%s: getMasses()[%s] = getMass(%s)" % (what, k, k), masses[k], m, scale=grams[k] + 1e-30)
+    # edits of one nuclide of each kind read back
+    for kind in kinds:
+        nuc = [k for k in nucs if kind_of(k) == kind][-1]
+        m = ctx.real("m_" + kind, 1e-3, 1e5)
+        dm = ctx.real("dm_" + kind, 0.0, 1e5)
+        b.setMass(nuc, m)
+        ctx.check_close("setMass of a %s (%s) reads back" % (kind, nuc), b.getMass(nuc), m, scale=m + 1e-30)
+        b.addMass(nuc, dm)
+        ctx.check_close("addMass of a %s (%s) adds" % (kind, nuc), b.getMass(nuc), m + dm, scale=m + dm + 1e-30)
+    tot = b.getMass()
+    ctx.check_close("after the edits: block mass = density x volume", tot, b.density() * b.getVolume(),
+                    scale=tot + 1e-30)
+
+
+@harness("C02", bounds="density [0.1,30] g/cc, mass fractions in [1e-3,1] of one nuclide of every kind in armi's "
+                       "directory (per_kind 1; thorough 2), mass [0,1e5], volume [1e-3,1e4]", stubs=STUBS,
+         instances={"quick": [dict(per_kind=1)], "thorough": [dict(per_kind=1), dict(per_kind=2)]})
+def density_tools_conversions_cover_every_kind_of_nuclide(ctx, per_kind):
+    nucs = nuclides_of_every_kind(per_kind)
+    rho = ctx.real("rho", 0.1, 30.0)
+    fr = {n: ctx.real("mf_" + n, 1e-3, 1.0) for n in nucs}
+    ctx.assume(sum(fr.values()) == 1)
+    nd = densityTools.getNDensFromMasses(rho, dict(fr))
+    got = densityTools.calculateMassDensity(nd)
+    if ctx.canary:
+        got = got * ITE(rho > 29.9, 1.001, 1)
+    ctx.check_close("calculateMassDensity(getNDensFromMasses(rho, fracs)) = rho", got, rho, scale=rho)
+    back = densityTools.getMassFractions(nd)
+    for n in nucs:
+        ctx.check_close("massFractions(nDens(massFracs))[%s, a %s]" % (n, kind_of(n)), back[n], fr[n], scale=1.0)
+    v = ctx.real("v", 1e-3, 1e4)
+    ctx.check_close("sum of getMassInGrams over the nuclides = mass density x volume",
+                    sum(densityTools.getMassInGrams(n, v, x) for n, x in nd.items()), rho * v, scale=rho * v)
+    for n in nucs:
+        m = ctx.real("m_" + n, 0.0, 1e5)
+        x = densityTools.calculateNumberDensity(n, m, v)
+        ctx.check_close("getMassInGrams(calculateNumberDensity(m)) for %s" % n, densityTools.getMassInGrams(n, v, x), m,
+                        scale=m + 1e-30)
+        ctx.check_close("calculateMassDensity of that one nuclide x volume = m", densityTools.calculateMassDensity({n: x}) * v,
+                        m, scale=m + 1e-30)
+
+
+# ---------------------------------------------------------------------------------------------------------
+# components of a block that is cut by symmetry lines
+
+import os  # noqa: E402
+
+_SHOW_KNOWN = os.environ.get("VERIF_SHOW_KNOWN_DEFECTS", "") != ""
+
+# Candidate genuine defect (unchanged tree): for a component whose block is cut by symmetry lines (centre assembly of
+# a third-core model, symmetry factor 3) Component.getMass divides the volume by the parent's symmetry factor, while
+# getMasses / setMass / addMass / removeMass / getNumberOfAtoms / getVolume of the same component use the full volume.
+# At the component's own level: setMass does not read back, getMass() != sum(getMasses()) != density x volume, and the
+# block's atom count (cut volume) is not the sum of its components' atom counts (full volumes).
+# Repro (plain Python):
+#   r, core, (a0, a1) = harness._build.mk_core([(0, 0), (1, 0)], nblocks=1); c = a0[0].getComponentByName("fuel")
+#   a0[0].getSymmetryFactor() -> 3.0
+#   c.setMass("U235", 10.0); c.getMass("U235") -> 3.3333 ; c.getMasses()["U235"] -> 10.0
+#   c.getMass() -> 2766.95 ; sum(c.getMasses().values()) -> 8300.86 ; c.density() * c.getVolume() -> 8300.86
+#   a0[0].getNumberOfAtoms("U235") -> 2.562e22 ; sum(x.getNumberOfAtoms("U235") for x in a0[0]) -> 7.686e22
+# While the flag is set those obligations are skipped (the block-level ones stay); VERIF_SHOW_KNOWN_DEFECTS=1 shows
+# the violations.
+KNOWN_DEFECT_component_mass_in_cut_block = True
+
+
+@harness("C02", bounds="mini third-core: centre assembly (its block is cut in three) and an off-centre assembly (whole), "
+                       "one block each, 4 components, real component areas, symbolic block height [1,400] and "
+                       "densities [1e-6,10]; masses, atoms and mass edits AT COMPONENT LEVEL and at block level in both "
+                       "blocks; requested masses in [1e-3,1e5]", stubs=STUBS, qtimeout_ms=20000,
+         instances={"quick": [dict(where="centre"), dict(where="off-centre")]})
+def component_level_accounting_in_a_block_cut_by_symmetry(ctx, where):
+    r, core, (a0, a1) = _build.mk_core([(0, 0), (1, 0)], nblocks=1)
+    a = a0 if where == "centre" else a1
+    b = a[0]
+    vols, dens = fill(ctx, b, "typical", geom=True, nlo=1e-6)
+    sf = b.getSymmetryFactor()
+    ctx.check("the centre block is cut in three, the other is whole", sf == (3.0 if where == "centre" else 1.0))
+    cut = sf != 1.0
+    skip = cut and KNOWN_DEFECT_component_mass_in_cut_block and not _SHOW_KNOWN
+    # block level: the block's volume is the cut one, and everything at block level is consistent with it
+    V = sum(vols.values())
+    ctx.check_close("block volume = sum of component volumes / symmetry factor", b.getVolume() * sf, V, scale=V)
+    tot = b.getMass()
+    got = tot
+    if ctx.canary:
+        got = got * ITE(dens[("duct", "FE")] > 9.99, 1.01, 1)
+    ctx.check_close("block mass = sum of component masses", got, sum(c.getMass() for c in b), scale=tot + 1e-30)
+    ctx.check_close("block mass = density x (cut) volume", tot, b.density() * b.getVolume(), scale=tot + 1e-30)
+    ctx.check_close("block mass = sum of getMasses()", tot, sum(b.getMasses().values()), scale=tot + 1e-30)
+    for nuc in ("U235", "FE"):
+        num, _ = homog(vols, dens, nuc)
+        if not skip:
+            ctx.check_close("atoms(%s): block = sum of components" % nuc, b.getNumberOfAtoms(nuc),
+                            sum(c.getNumberOfAtoms(nuc) for c in b), scale=num / units.CM2_PER_BARN + 1e-30)
+    # component level
+    for c in b:
+        mc = c.getMass()
+        if not skip:
+            ctx.check_close("%s: mass = density x volume" % c.name, mc, compmod.Composite.density(c) * c.getVolume(),
+                            scale=mc + 1e-30)
+            ctx.check_close("%s: mass = sum of getMasses()" % c.name, mc, sum(c.getMasses().values()),
+                            scale=mc + 1e-30)
+            for nuc, mm in c.getMasses().items():
+                ctx.check_close("%s: getMasses()[%s] = getMass(%s)" % (c.name, nuc, nuc), mm, c.getMass(nuc),
+                                scale=mm + 1e-30)
+    fuel = b.getComponentByName("fuel")
+    m = ctx.real("m", 1e-3, 1e5)
+    dm = ctx.real("dm", 0.0, 1e5)
+    mb = ctx.real("mb", 0.0, 1e5)
+    otherBefore = fuel.getNumberDensity("U238")
+    fuel.setMass("U235", m)
+    if not skip:
+        ctx.check_close("component setMass reads back at component level", fuel.getMass("U235"), m, scale=m + 1e-30)
+    fuel.addMass("U235", dm)
+    if not skip:
+        ctx.check_close("component addMass adds at component level", fuel.getMass("U235"), m + dm,
+                        scale=m + dm + 1e-30)
+    fuel.removeMass("U235", dm)
+    if not skip:
+        ctx.check_close("component removeMass removes at component level", fuel.getMass("U235"), m,
+                        scale=m + dm + 1e-30)
+    ctx.check_close("component mass edits leave the other nuclides alone", fuel.getNumberDensity("U238"), otherBefore,
+                    scale=otherBefore + 1e-30)
+    b.setMass("U235", mb)
+    ctx.check_close("block setMass reads back at block level (cut or not)", b.getMass("U235"), mb, scale=mb + 1e-30)
+    ctx.check_close("... and the block mass is still the sum of its components", b.getMass("U235"),
+                    sum(c.getMass("U235") for c in b), scale=mb + 1e-30)
+
+
+# Candidate genuine defect (unchanged tree): Block.getArea caches ONE value under the key "area" whatever `cold` is.
+# After b.getArea(cold=True) every later b.getArea() returns the cold area (and the other way round) until the cache
+# is cleared, and with it Assembly.getArea() / Assembly.getVolume() (first block's area x total height).
+# Repro (plain Python):
+#   b = harness._build.mk_block(); b.getArea(cold=True) -> 86.8629 ; b.getArea() -> 86.8629 (hot area is 88.6274)
+#   b = harness._build.mk_block(); b.getArea() -> 88.6274 ; b.getArea(cold=True) -> 88.6274
+# While the flag is set the obligations after a query of the OTHER kind are skipped; VERIF_SHOW_KNOWN_DEFECTS=1 shows
+# the violations.
+KNOWN_DEFECT_block_area_cache_ignores_cold = True
+
+
+@harness("C02", bounds="assembly of 2 real blocks (components hot, so cold and hot areas differ), symbolic block heights "
+                       "[1,400]; history of read queries: symbolic choice which of Block.getArea(cold=True) / "
+                       "Block.getArea() is asked first on the first block", stubs=STUBS, qtimeout_ms=20000)
+def block_area_and_assembly_volume_after_cold_and_hot_queries(ctx):
+    import armi.reactor.assemblies as asmmod
+    shims.patch(asmmod, np=shims.np_shim)
+    a = _build.mk_assembly(2)
+    for bi, b in enumerate(a):
+        fill(ctx, b, "sparse", tag="_%d" % bi, geom=True)
+    a.calculateZCoords()
+    b0 = a[0]
+    hot = sum(c.getArea() for c in b0)
+    cold = sum(c.getArea(cold=True) for c in b0)
+    coldFirst = ctx.bool("cold_area_asked_first")
+    skip = KNOWN_DEFECT_block_area_cache_ignores_cold and not _SHOW_KNOWN
+    if coldFirst:
+        first, second = b0.getArea(cold=True), None if skip else b0.getArea()
+        gotCold, gotHot = first, second
+    else:
+        first, second = b0.getArea(), None if skip else b0.getArea(cold=True)
+        gotHot, gotCold = first, second
+    if ctx.canary:
+        hot, cold = hot * ITE(a[1].p.height > 399, 1.01, 1), cold * ITE(a[1].p.height > 399, 1.01, 1)
+    if gotCold is not None:
+        ctx.check_close("block cold area = sum of the components' cold areas", gotCold, cold, scale=cold)
+    if gotHot is not None:
+        ctx.check_close("block area = sum of the components' areas", gotHot, hot, scale=hot)
+    if coldFirst and skip:
+        return
+    V = sum(b.getVolume() for b in a)
+    ctx.check_close("assembly volume = sum of the block volumes, whatever was asked of the blocks before",
+                    a.getVolume(), V, scale=V)
